@@ -2,7 +2,7 @@
 """Seeded changes (independently written property-breaking edits of the library) and what the checks say about them.
 
 usage:
-  seeded.py import <Cxx> <out-dir-of-breaker> <k>     confirm change k (patch<k>.diff, demo<k>.py) in a scratch worktree and store it as seeded/<Cxx>-s<k>/
+  seeded.py import <Cxx> <out-dir-of-breaker> <k> [offset]   confirm change k (patch<k>.diff, demo<k>.py) in a scratch worktree and store it as seeded/<Cxx>-s<k>/
   seeded.py run [<name> ...] [--tier quick]           run the property's check against each stored change (scratch worktree, VERIF_REPO), record verdict in meta.json
 Scratch worktrees live under /tmp and are removed after every step.  Nothing here is used by the registered checks.
 """
@@ -54,10 +54,10 @@ def test_summary(tree):
     return tail, sorted(l.split(" - ")[0] for l in lines)
 
 
-def do_import(pid, outdir, k):
+def do_import(pid, outdir, k, offset=0):
     outdir = Path(outdir)
     patch, demo = outdir / f"patch{k}.diff", outdir / f"demo{k}.py"
-    name = f"{pid}-s{k}"
+    name = f"{pid}-s{k + offset}"
     with Worktree(name) as wt:
         base_tail, base_fail = test_summary(wt)
         rc0, out0 = run_demo(wt, demo)
@@ -138,7 +138,7 @@ def do_run(names, tier):
 if __name__ == "__main__":
     a = sys.argv[1:]
     if a and a[0] == "import":
-        sys.exit(do_import(a[1], a[2], int(a[3])))
+        sys.exit(do_import(a[1], a[2], int(a[3]), int(a[4]) if len(a) > 4 else 0))
     if a and a[0] == "run":
         tier = "quick"
         if "--tier" in a:
